@@ -17,6 +17,12 @@ Theorem C10_chain : forall last k r,
 Proof. exact carry_head. Qed.
 Print Assumptions C10_chain.
 
+(* a run of and/but steps of any length repeats the type of the step before it, and the step after the run sees that type *)
+Theorem C10_conjunction_run : forall last n r,
+  fst (carry last (repeat Conjunction n ++ r)) = repeat last n ++ fst (carry last r).
+Proof. exact carry_conjunction_run. Qed.
+Print Assumptions C10_conjunction_run.
+
 Theorem C10_first_conjunction_unknown : forall r, hd_error (fst (carry PUnknown (Conjunction :: r))) = Some PUnknown.
 Proof. intros r. rewrite carry_head. reflexivity. Qed.
 Print Assumptions C10_first_conjunction_unknown.
